@@ -151,26 +151,58 @@ def lambda_escapes(w: World, root: N, le, mod):
     n_sites = 0
     T = IRTypes(w)
 
-    def walk(n, guarded, holder, depth=0):
+    def walk(n, guarded, holder, depth=0, excl=None):
         nonlocal n_sites
         if depth > 40:
             return
+        excl = excl or {}
         k = n.kind
         g2 = guarded or k in ("Select", "GreedyRange")
-        if k in ("Struct", "FocusedSeq"):
+        if k in ("Struct", "FocusedSeq", "Sequence", "LazyStruct"):
             holder = n
+            # a nested context: what the enclosing struct calls this.x is this._.x in here
+            excl = {_up(key): v for key, v in excl.items()}
         if k in ("Computed", "Check") and isinstance(n.a.get("expr"), Expr) and holder is not None:
             n_sites += 1
             if not guarded:
                 if isinstance(n.a["expr"].node, (ast.Lambda, ast.FunctionDef)):
                     out.extend(_lambda_site(n, holder, T, le))
                 else:
-                    out.extend(_this_site(n, holder, T, le))
-        for _, c in children(n):
-            walk(c, g2, holder, depth + 1)
+                    out.extend(_this_site(n, holder, T, le, excl))
+        for lbl, c in children(n):
+            e2 = excl
+            if k == "Switch" and isinstance(n.a.get("key"), Expr) and c is n.a.get("default"):
+                # the default alternative is taken exactly for the keys no case names
+                ks = _norm_key(n.a["key"].src)
+                e2 = dict(excl)
+                e2[ks] = set(e2.get(ks, ())) | set(n.a["cases"].keys())
+            walk(c, g2, holder, depth + 1, e2)
 
     walk(root, False, None)
     return out, n_sites
+
+
+def _norm_key(src):
+    return src.replace("construct.", "").replace(" ", "")
+
+
+def _up(key):
+    return key.replace("this.", "this._.", 1) if key.startswith("this.") else key
+
+
+def reachable_kinds(T, m, excl):
+    """result kinds of member m, leaving out the cases of a Switch whose key an enclosing Switch has already dispatched elsewhere"""
+    if m.kind == "Switch" and isinstance(m.a.get("key"), Expr) and _norm_key(m.a["key"].src) in excl:
+        gone = excl[_norm_key(m.a["key"].src)]
+        out = set()
+        for ck, c in m.a["cases"].items():
+            if ck not in gone and isinstance(c, N):
+                out |= T.result(c)
+        d = m.a.get("default")
+        if isinstance(d, N):
+            out |= T.result(d)
+        return out
+    return T.result(m)
 
 
 def _lambda_site(n, holder, T, le):
@@ -218,8 +250,8 @@ def _lambda_site(n, holder, T, le):
     return out
 
 
-def _this_site(n, holder, T, le):
-    """Computed(this.a * this.b.c): arithmetic on members that can be None"""
+def _this_site(n, holder, T, le, excl=None):
+    """Computed(this.a * this.b.c): arithmetic on members that can be None, or a struct (Container)"""
     from sa.consir import N as _N
     node = n.a["expr"].node
     if not any(isinstance(x, ast.BinOp) for x in ast.walk(node)):
@@ -233,6 +265,17 @@ def _this_site(n, holder, T, le):
             if ("none",) in ks:
                 out.append(Escape("TypeError", f"{holder.src or holder.name or 'struct'}:{n.name or n.kind}", n.line,
                                   f"member `{a.attr}` can be None (no matching case and no default) and is used in arithmetic"))
+    # a direct operand of + - * / that can be a struct: a Container supports none of them
+    for b in ast.walk(node):
+        if isinstance(b, ast.BinOp) and isinstance(b.op, (ast.Add, ast.Sub, ast.Mult, ast.Div, ast.FloorDiv, ast.Mod, ast.Pow)):
+            for a in (b.left, b.right):
+                if isinstance(a, ast.Attribute) and isinstance(a.value, ast.Attribute) and a.value.attr == "this" and a.attr in members:
+                    ks = reachable_kinds(T, members[a.attr], excl or {})
+                    nodes = [k_ for k_ in ks if k_[0] == "node"]
+                    if nodes:
+                        names = sorted({(T.nodes[k_[1]].src or T.nodes[k_[1]].name or "struct") for k_ in nodes})
+                        out.append(Escape("TypeError", f"{holder.src or holder.name or 'struct'}:{n.name or n.kind}", n.line,
+                                          f"member `{a.attr}` can be a struct ({', '.join(names)}) and is an operand of arithmetic: Container has no such operator"))
     return out
 
 
